@@ -43,7 +43,7 @@ def main():
          "engines": [{"name": "E1-crosshair", "path": "vf/worker.py", "serves_properties": [p for p in sorted(claimed) if p != "C10"] + ["C10"], "kind_free_text": "CrossHair 0.0.110 / z3 5.1 symbolic execution of the real tartiflette functions through harness obligations (harness/Cxx.py)"},
                      {"name": "E2-py2smt", "path": "vf/py2smt.py", "serves_properties": ["C10"], "kind_free_text": "Python AST -> z3 translation of the scalar kernels, regenerated from the current source on every run"}],
          "checks": checks, "not_applicable": na,
-         "notes": "See DESIGN.md (section 10: as built; 11: seeded changes). /repo carries NO hook/instrumentation commit; its 'fix:' commits (cb95eea, 8b66ee2, cf1cae1, 623c0d2, 5b4b5f1, 06f5f4f, 8ad2374, 0d87cfb) repair genuine defects found by these checks and are listed in known_findings.json together with the open findings F5, F6, F7, F11, F14. ./vcheck re-runs setup.sh idempotently; checks import tartiflette from /repo's working tree on every run (VF_REPO overrides it for mutation trials). Repairs of genuine defects are 'fix:' commits in /repo, listed in known_findings.json."}
+         "notes": "See DESIGN.md (section 10: as built; 11: seeded changes). /repo carries NO hook/instrumentation commit; its 'fix:' commits (cb95eea, 8b66ee2, cf1cae1, 623c0d2, 5b4b5f1, 06f5f4f, 8ad2374, 0d87cfb, 646704a) repair genuine defects found by these checks and are listed in known_findings.json together with the open findings F5, F6, F7, F11, F14. ./vcheck re-runs setup.sh idempotently; checks import tartiflette from /repo's working tree on every run (VF_REPO overrides it for mutation trials). Repairs of genuine defects are 'fix:' commits in /repo, listed in known_findings.json."}
     json.dump(m, open(os.path.join(ROOT, "MANIFEST.json"), "w"), indent=1)
     print("claimed", sorted(claimed), "n/a", [x["property_id"] for x in na])
 main()
